@@ -4,18 +4,25 @@ C04 — Register caching is observationally transparent.
 Property theorems only.  Vocabulary (`Coherent`, `Declared`, `PortDeclared`, `HistOk`,
 `LogSub`, `Inv`, `Rel`) is in `CamVerif.Spec.CacheSpec`; the model
 (`CamVerif.Model.Cache`) is the register/cache layer of `cameleon-genapi` after the repairs
-of F-C04-1 and F-C04-2; helper lemmas are in `CamVerif.Proofs.C04{Store,Inv,Sim,Ops}`.
+of F-C04-1 and F-C04-2; helper lemmas are in `CamVerif.Proofs.C04{Store,Inv,Sim,Ops,Keeps}`.
 
 Everything is quantified over every description `g` with `Declared p g`, every device
 (image, static rejection ranges, rejected write ordinals, prior log), every history and both
 build profiles.  Nothing is bounded.
 
 Device rejections: see `Cache.Dev` — out-of-image accesses, static no-access / no-write
-ranges, and the `k`-th write attempt for `k ∈ rejW`.  Write ordinals are the same in both
-runs because both perform the same writes (`log_sub_writes`).  Transient *read* failures are
-excluded on purpose: a read the device refuses only sometimes is visible through any cache.
+ranges, the `k`-th write attempt for `k ∈ rejW` (atomic), and NON-ATOMIC rejections `rejP`: the
+device reports an error but leaves arbitrary bytes at the start of the written range (part of
+the data applied, all of it applied with the acknowledge lost, or garbage).  Write ordinals
+are the same in both runs because both perform the same writes (`log_sub_writes`).  Transient
+*read* failures are excluded on purpose: a read the device refuses only sometimes is visible
+through any cache.
+
+Which theorem needs what: `sim`, `log_sub`, `prim_preserve*` need `Declared` (+ `HistOk`);
+the NoCache theorems need only `NoCacheAbsent`, proved for every description and history
+(`nocache_absent_invariant`); `own_write_visible` needs nothing.
 -/
-import CamVerif.Proofs.C04Ops
+import CamVerif.Proofs.C04Keeps
 namespace CamVerif.C04
 open CamVerif CamVerif.Cache
 
@@ -24,7 +31,7 @@ open CamVerif CamVerif.Cache
 /-- Port; a NoCache selector; two overlapping IntRegs (WriteThrough / WriteAround) that list
 each other; two StructReg entries (same address, disjoint bit fields) that list each other;
 a selector-addressed register with stride = length listing the port;
-an Integer (pValue + one pValueCopy) and a Command on top. -/
+an Integer (pValue + one pValueCopy), a Command, a Boolean and an Enumeration on top. -/
 def exGraph : Graph :=
   [ .port,
     .reg ⟨.int .le .unsigned, 0, none, 1, .noCache, .rw, [], 0⟩,
@@ -34,7 +41,9 @@ def exGraph : Graph :=
     .reg ⟨.masked .le .unsigned 4 7, 12, none, 1, .writeThrough, .rw, [4, 6], 0⟩,
     .reg ⟨.raw, 2, some (1, 2), 2, .writeThrough, .rw, [0], 0⟩,
     .integer 3 [1],
-    .command 7 5 ]
+    .command 7 5,
+    .boolean 2 1 0,
+    .enumeration 3 [1, 2] ]
 
 def exDev : Dev :=
   ⟨[1, 0, 9, 9, 1, 2, 3, 4, 5, 6, 7, 8, 0xA5, 0, 0, 0], [(15, 1)], [(8, 2)], [1], [], 0, []⟩
@@ -183,6 +192,16 @@ example :
        .ok (.int 0x0304)] := by
   decide +kernel
 
+/-- Enumeration and Boolean features: write through the Enumeration (invalidates node 2, which
+lists the written register), a Boolean write the device rejects, a Boolean whose register
+holds neither OnValue nor OffValue -/
+example :
+    (runHist defaultCache Profile.dev exGraph (initDefault exGraph exDev)
+      [.value 2, .setValue 10 (.int 2), .value 10, .value 2, .setValue 9 (.bool true), .value 9]).1 =
+      [.ok (.int 0x04030201), .ok .unit, .ok (.int 2), .ok (.int 0x02000201), .err .device,
+       .err .invalidNode] := by
+  decide +kernel
+
 /-! ## 3. Caching never adds device accesses -/
 
 theorem LogSub.length_le {lc lu : List Access} (h : LogSub lc lu) : lc.length ≤ lu.length := by
@@ -229,51 +248,38 @@ example :
 
 /-! ## 4. A NoCache register is never served from memory -/
 
-/-- **nocache_always_reads**: whenever the cache only holds keys of cachable registers (part
-of the invariant), `value`/`read` of a `NoCache` register goes to `read_and_cache`, and a
-successful `read_and_cache` appends exactly one successful R entry for the register's key. -/
-theorem nocache_always_reads {p : Profile} {g : Graph} {s : St Store} (hK : KeysOk p g s.cache)
+/-- `NoCacheAbsent` (no cache entry belongs to a NoCache register) holds for the freshly built
+store and after every history — on EVERY description and device, declared or not. -/
+theorem nocache_absent_invariant (p : Profile) (g : Graph) (d : Dev) (h : List Op) :
+    NoCacheAbsent g (initDefault g d).cache ∧
+      NoCacheAbsent g (runHist defaultCache p g (initDefault g d) h).2.cache :=
+  ⟨noCacheAbsent_init g d,
+   keeps_runHist (storeInv_noCacheAbsent g) h _ (noCacheAbsent_init g d)⟩
+
+/-- … and every single operation preserves it. -/
+theorem nocache_absent_step (p : Profile) (g : Graph) (s : St Store) (op : Op)
+    (hA : NoCacheAbsent g s.cache) : NoCacheAbsent g (run defaultCache p g s op).2.cache :=
+  keeps_evalOp (storeInv_noCacheAbsent g) (fuelOf g) op s hA
+
+/-- **nocache_always_reads** (primitive level): in every such state `value`/`read` of a
+`NoCache` register goes to `read_and_cache`, and a successful `read_and_cache` appends
+exactly one successful R entry for the register's key. -/
+theorem nocache_always_reads {g : Graph} {s : St Store} (hA : NoCacheAbsent g s.cache)
     {n : NodeId} {r : Reg} (hn : g[n]? = some (.reg r)) (hm : r.mode = .noCache) (a : Int) :
     cachedRead defaultCache g n r a s = readAndCache defaultCache g n r a r.len s ∧
     ∀ buflen bs s', readAndCache defaultCache g n r a buflen s = (.ok bs, s') →
-      s'.dev.log = ⟨false, a, r.len, bs, true⟩ :: s.dev.log ∧ s.dev.peek a r.len = some bs := by
-  constructor
-  · have hget : s.cache.get n a r.len = none := by
-      cases h : s.cache.get n a r.len with
-      | none => rfl
-      | some bs =>
-        obtain ⟨r', hr', hm', _⟩ := hK _ _ _ _ h
-        rw [hn] at hr'
-        cases hr'
-        exact absurd hm hm'
-    show (match Store.get s.cache n a r.len with
-      | some bs => (Res.ok bs, s)
-      | none => readAndCache defaultCache g n r a r.len s) = _
-    rw [hget]
-  · intro buflen bs s' h
-    rw [readAndCache_eq] at h
-    split at h
-    · cases h
-    split at h
-    · split at h
-      · rename_i bs' hp
-        cases h
-        exact ⟨rfl, hp⟩
-      · cases h
-    · cases h
-
-example : KeysOk Profile.dev exGraph (initDefault exGraph exDev).cache :=
-  (rel_init Profile.dev exGraph exDev).2.keys
+      s'.dev.log = ⟨false, a, r.len, bs, true⟩ :: s.dev.log ∧ s.dev.peek a r.len = some bs :=
+  ⟨cachedRead_nocache hA hn hm a, fun _ _ _ h => readAndCache_ok_log h⟩
 
 /-- **nocache_always_reads, operation level**: a successful `value` (IInteger / IFloat /
-IString) of a `NoCache` register — cache enabled, any state satisfying the invariant —
+IString) of a `NoCache` register — cache enabled, any description, any reachable state —
 performed a successful device read of the register's length as its last device access:
 the log is `R(a, len, bytes) :: pre ++ old log`. -/
 theorem nocache_value_always_reads {p : Profile} {g : Graph} {s s' : St Store}
-    (hI : Inv p g s.cache s.dev) {n : NodeId} {r : Reg} (hn : g[n]? = some (.reg r))
+    (hA : NoCacheAbsent g s.cache) {n : NodeId} {r : Reg} (hn : g[n]? = some (.reg r))
     (hm : r.mode = .noCache) {v : Val} (h : run defaultCache p g s (.value n) = (.ok v, s')) :
     ∃ a bs pre, s'.dev.log = ⟨false, a, r.len, bs, true⟩ :: (pre ++ s.dev.log) :=
-  opValue_nocache hI hn hm h
+  opValue_nocache hA hn hm h
 
 /-- raw `IRegister::read` is never served from the cache, whatever the mode, and returns the
 bytes the device delivered. -/
@@ -359,6 +365,52 @@ example :
         ⟨[0, 0, 0xAA, 0xBB], [], [], [], [], 0, []⟩)
       [.value 1, .setValue 1 (.int 7), .value 1]).1 = [.ok (.int 0), .ok .unit, .ok (.int 7)] := by
   decide +kernel
+
+/-! ## 6. Feature nodes invalidate before they forward (mechanism clause)
+
+`Declared` accepts "t lists the writing register or its port".  Descriptions that list only a
+FEATURE node above the writer (Integer / Boolean / Enumeration / Command) are not covered by
+`sim`; for them the theorems below state the mechanism outright, and the harness evaluates the
+cached-vs-uncached oracle on such graphs (`declared_for_history` in `c04.rs`). -/
+
+/-- Every feature write starts by `invalidate_cache_by(self)` and only then forwards:
+`IntegerNode::set_value` (`integer.rs:99`), `EnumerationNode::set_entry_by_value`
+(`enumeration.rs:141`, for a declared entry value), `BooleanNode::set_value` (`boolean.rs:90`),
+`CommandNode::execute` (`command.rs:60`) — for every cache implementation. -/
+theorem feature_write_invalidates_first {κ : Type} (ops : CacheOps κ) (p : Profile) (g : Graph)
+    (fuel : Nat) (n : NodeId) :
+    (∀ pv cs v, g[n]? = some (.integer pv cs) →
+      setInt ops p g (fuel + 1) n v =
+        (invBy ops n >>= fun _ => setInt ops p g fuel pv v >>= fun _ =>
+          forEachM (fun c => setInt ops p g fuel c v) cs)) ∧
+    (∀ pv vals v, g[n]? = some (.enumeration pv vals) → vals.contains v = true →
+      setInt ops p g (fuel + 1) n v = (invBy ops n >>= fun _ => setInt ops p g fuel pv v)) ∧
+    (∀ pv on off b, g[n]? = some (.boolean pv on off) →
+      opSetValue ops p g fuel n (.bool b) =
+        (invBy ops n >>= fun _ => setInt ops p g fuel pv (if b then on else off) >>= fun _ =>
+          M.pure .unit)) ∧
+    (∀ pv cv, g[n]? = some (.command pv cv) →
+      opExecute ops p g fuel n =
+        (invBy ops n >>= fun _ => setInt ops p g fuel pv cv >>= fun _ => M.pure .unit)) := by
+  refine ⟨?_, ?_, ?_, ?_⟩
+  · intro pv cs v hn
+    simp only [setInt, hn]
+  · intro pv vals v hn hv
+    simp only [setInt, hn, hv, if_true]
+  · intro pv on off b hn
+    simp only [opSetValue, hn]
+  · intro pv cv hn
+    simp only [opExecute, hn]
+
+/-- … and right after that first step no register that lists the feature as `pInvalidator`
+has a cache entry (default cache, any state whose table is the parser's). -/
+theorem feature_invalidate_clears_listers {g : Graph} {s : St Store} (hT : TableOk g s.cache)
+    (f t : NodeId) (rt : Reg) (ht : g[t]? = some (.reg rt)) (hf : f ∈ rt.invs) (a : Int) (l : Nat) :
+    (invBy defaultCache f s).2.cache.get t a l = none := by
+  show (Store.invalidateBy s.cache f).get t a l = none
+  rw [get_invalidateBy, if_pos (hT t rt f ht hf)]
+
+example : TableOk exGraph (initDefault exGraph exDev).cache := buildStore_table exGraph
 
 /-- the partially applied, rejected write that used to fail (F-C04-3): WriteThrough register,
 read `0x11111111`, `set_value(0x22222222)` on a device that applies two bytes and then reports an
